@@ -580,7 +580,8 @@ class SmallVectorBase : private Alloc {
   void destroyFreeStorage() noexcept {
     if (isSmall()) {
       amc::destroy_n(_storage.ptr(), _capa);
-    } else if (_size != 0) {
+    } else {
+      // The dynamic buffer has to be released even if it holds no element (for instance after a clear)
       amc::destroy_n(_storage.dyn(), _size);
       freeStorage();
     }
